@@ -112,6 +112,27 @@ def check_applications(out, name, make, c, M, N, cls='', tol=None, adjoint_cls=N
                       % (name, arg, cls), d=inp, expected=c['Y'], got=np.asarray(y2).tolist())
     except Exception as ex:
         out.v('exception %s %s.dot applied twice arg=%s %s' % (type(ex).__name__, name, arg, cls), d=inp, error=repr(ex))
+    # ... and a result stays valid while the operator is used again: apply to x, keep the result, apply to 2x
+    # (linearity gives the expected value 2Y without another reference), look at the first result again
+    stage('%s.dot (applied to x, then to 2x, first result looked at again)' % name)
+    try:
+        y1 = op.dot(x)
+        y2 = op.dot(2.0 * x)
+        if not same(y2, 2.0 * Y, tol if tol is not None else 1e-12):
+            out.v('%s.dot second application (to 2x) wrong arg=%s %s' % (name, arg, cls), d=inp,
+                  expected=(2.0 * Y).tolist(), got=np.asarray(y2).tolist())
+        elif not same(y1, Y, tol):
+            out.v('%s.dot result of an earlier application changed by a later one arg=%s %s' % (name, arg, cls), d=inp,
+                  expected=c['Y'], got=np.asarray(y1).tolist())
+        if M == N and x.size:               # feeding a result back in: op(op(x)) against op applied to a COPY of op(x)
+            z = np.array(op.dot(x), copy=True)
+            w_ref = np.array(op.dot(z), copy=True)
+            w = op.dot(op.dot(x))
+            if not same(w, w_ref, tol if tol is not None else 1e-12):
+                out.v('%s.dot(op.dot(x)) differs from op.dot(copy of op.dot(x)) arg=%s %s' % (name, arg, cls), d=inp,
+                      expected=w_ref.tolist(), got=np.asarray(w).tolist())
+    except Exception as ex:
+        out.v('exception %s %s.dot applied to x then 2x arg=%s %s' % (type(ex).__name__, name, arg, cls), d=inp, error=repr(ex))
     # the same product with an INTEGER-typed argument (integer-valued vectors are what index computations and counting
     # arguments produce); the operator's values are real, so the result must not be computed in integer arithmetic
     if x.size and np.all(x == np.round(x)):
